@@ -32,6 +32,7 @@ Judge(c, s, e) ==
              \o << << e.m = <<>> \/ (IF e.p.want_m = <<0, 0>>
                                      THEN \A i \in 1..Len(e.m) : e.m[i] = <<1, 1>>           \* measures relative to the first vertex: all at one distance from the centre
                                      ELSE \A i \in 1..Len(e.m) : e.m[i] = e.p.want_m), "vertices_on_the_named_surface_at_the_requested_radius_and_centre" >>,
+                   << e.derr <= 2, "centre_realises_the_requested_angle_defect" >>,        \* rings only: micro-radians off the (clamped) request; the bisection stops at 1e-6
                    << ExpPos(e.gen, e.p) = <<>> \/ e.pos = ExpPos(e.gen, e.p), "vertices_on_the_requested_corners" >>,
                    << e.box = <<>> \/ \A i \in 1..Len(e.box) : e.box[i][3] = <<0, 1>> /\ \A k \in 1..2 :
                           e.box[i][k][2] > 0 /\ e.box[i][k][1] >= 0 /\ e.box[i][k][1] <= e.box[i][k][2], "vertices_in_the_unit_square" >>,
